@@ -22,3 +22,12 @@ reg('C03', 'propchecks.treespec', 'proof', T1, [ASCII, DEPTH, CORR])
 reg('C04', 'propchecks.treespec', 'proof', T1, [ASCII, DEPTH, CORR])
 reg('C05', 'propchecks.treespec', 'proof', T1, [ASCII, DEPTH, CORR])
 reg('C12', 'propchecks.treespec', 'proof', T1, [ASCII, DEPTH, CORR])
+
+QC = 'Bashlex.Proofs.QCongr'
+T6 = [('Bashlex.Q.run_congr', QC), ('Bashlex.Q.run_strict_irrelevant', QC), ('Bashlex.Q.run_proceed_irrelevant', QC),
+      ('Bashlex.Q.optStrict_asked_of_ne', QC), ('Bashlex.Q.optProceed_asked_of_ne', QC)]
+reg('C13', 'propchecks.relprops', 'proof', [('Bashlex.Q.run_prefix', QC), ('Bashlex.runParser_prefix', QC), ('Bashlex.Q.run_prefix_idx', QC)] + T1[:1], [ASCII, DEPTH, CORR])
+reg('C14', 'propchecks.relprops', 'proof', T1[:1], [ASCII, DEPTH, CORR])
+reg('C16', 'propchecks.relprops', 'proof', T1[:1], [ASCII, DEPTH, CORR])
+reg('C17', 'propchecks.relprops', 'proof', T6 + [('Bashlex.parse_strict_irrelevant', QC), ('Bashlex.parse_proceed_irrelevant', QC),
+      ('Bashlex.parsesingle_strict_irrelevant', QC), ('Bashlex.parsesingle_proceed_irrelevant', QC)], [ASCII, DEPTH, CORR])
